@@ -1,54 +1,18 @@
-/* C17: contracts for dispenso::detail::staticChunkSize / staticChunkSizeGranular (dispenso/platform.h).
- * Bodies are #included from the per-run extraction (gen/). Top-level postconditions are the property
- * statement: with T = transitionTaskIndex and C = ceilChunkSize, chunks [0,T) have C items and chunks
- * [T,chunks) have C-unit items (unit = 1, or the granularity); "cover every item exactly once" is
- * T*C + (chunks-T)*(C-unit) == items over mathematical integers; "larger first / differ by at most one
- * unit" is the shape (C before C-unit) together with 1 <= T <= chunks and C-unit >= 0 when it is used. */
+/* C17: dispenso::detail::staticChunkSize / staticChunkSizeGranular (dispenso/platform.h) verified against the
+ * contracts in c17_chunking_decls.h.  Bodies are #included from the per-run extraction (gen/). */
 #include "prelude.h"
-
-typedef struct StaticChunking
-#include "StaticChunking.fields.inc"
-StaticChunking;
-
-#define RV __CPROVER_return_value
+#define C17_DEFINE_BODIES
+#include "c17_chunking_decls.h"
 
 StaticChunking staticChunkSize(ssize_t items, ssize_t chunks)
-__CPROVER_requires(chunks >= 1 && items >= 0 && items <= I64_MAX - chunks)
-#ifdef KF_EXCLUDE
-__CPROVER_requires(!(KF_EXCLUDE))
-#endif
-__CPROVER_ensures(1 <= RV.transitionTaskIndex && RV.transitionTaskIndex <= chunks)
-__CPROVER_ensures(RV.ceilChunkSize >= 0 && RV.ceilChunkSize <= items)
-__CPROVER_ensures(RV.transitionTaskIndex < chunks ==> RV.ceilChunkSize >= 1)
-__CPROVER_ensures(items > 0 ==> RV.ceilChunkSize >= 1)
-/* cover exactly once (mathematical integers) */
-__CPROVER_ensures((mathint)RV.transitionTaskIndex * RV.ceilChunkSize +
-                  ((mathint)chunks - RV.transitionTaskIndex) * ((mathint)RV.ceilChunkSize - 1) == items)
-__CPROVER_assigns()
+CONTRACT_staticChunkSize
 #include "staticChunkSize.body.inc"
 
-#ifndef SKIP_GRANULAR
 StaticChunking staticChunkSizeGranular(ssize_t items, ssize_t chunks, uint32_t granularity)
-__CPROVER_requires(chunks >= 1 && granularity >= 1 && items >= 0)
-__CPROVER_requires(items % (ssize_t)granularity == 0)
-__CPROVER_requires(items / (ssize_t)granularity <= I64_MAX - chunks)
-#ifdef KF_EXCLUDE
-__CPROVER_requires(!(KF_EXCLUDE))
-#endif
-__CPROVER_ensures(1 <= RV.transitionTaskIndex && RV.transitionTaskIndex <= chunks)
-__CPROVER_ensures(RV.ceilChunkSize >= 0 && RV.ceilChunkSize <= items)
-__CPROVER_ensures(RV.ceilChunkSize % (ssize_t)granularity == 0)
-__CPROVER_ensures(RV.transitionTaskIndex < chunks ==> RV.ceilChunkSize >= (ssize_t)granularity)
-__CPROVER_ensures(items > 0 ==> RV.ceilChunkSize >= (ssize_t)granularity)
-__CPROVER_ensures((mathint)RV.transitionTaskIndex * RV.ceilChunkSize +
-                  ((mathint)chunks - RV.transitionTaskIndex) * ((mathint)RV.ceilChunkSize - (mathint)granularity) == items)
-__CPROVER_assigns()
+CONTRACT_staticChunkSizeGranular
 #include "staticChunkSizeGranular.body.inc"
-#endif
 
 #ifdef VERIF_CBMC
 void h_staticChunkSize(void) { ssize_t items, chunks; staticChunkSize(items, chunks); }
-#ifndef SKIP_GRANULAR
 void h_staticChunkSizeGranular(void) { ssize_t items, chunks; uint32_t g; staticChunkSizeGranular(items, chunks, g); }
-#endif
 #endif
